@@ -151,6 +151,12 @@ func (s *ServerDnsListener) closeConnection(u *userConnection) error {
 	s.usersLock.Lock()
 	defer s.usersLock.Unlock()
 
+	if int(u.UserId) >= len(s.connections) || s.connections[u.UserId] != u {
+		// Not (or no longer) the live session of its slot: closed before, or the slot has been
+		// handed to a newer session since - possibly one from the very same address
+		return nil
+	}
+
 	_, err := s.validateAndGetUser(u.UserId, u.remoteAddress)
 	if err == commands.BadUser {
 		// Connection already closed
